@@ -84,7 +84,7 @@ theorem loop_cases (t : Tor) (cb : Callback) (elapsed : Bool) (tot : Nat) (items
 theorem isFileMatch_true {t : Tor} {c : Cand} (h : isFileMatch t c = .ok true) :
     t.name = c.name ∧
     (∃ tid cid, filepathsAndSizes t.name t.single t.files = .ok tid ∧
-      filepathsAndSizes c.name c.single c.files = .ok cid ∧ tid.Perm cid) ∧
+      filepathsAndSizes c.name c.single c.files c.bytesPath = .ok cid ∧ tid.Perm cid) ∧
     t.plMin ≤ c.pieceLength ∧ c.pieceLength ≤ t.plMax := by
   unfold isFileMatch at h
   by_cases hn : t.name = c.name
@@ -93,7 +93,7 @@ theorem isFileMatch_true {t : Tor} {c : Cand} (h : isFileMatch t c = .ok true) :
     cases htid : filepathsAndSizes t.name t.single t.files with
     | error e => simp [htid] at h
     | ok tid =>
-      cases hcid : filepathsAndSizes t.name c.single c.files with
+      cases hcid : filepathsAndSizes t.name c.single c.files c.bytesPath with
       | error e => simp [htid, hcid] at h
       | ok cid =>
         simp only [htid, hcid] at h
